@@ -157,6 +157,52 @@ def cdr_taint(fn, carlike=()):
     return tainted
 
 
+def param_flow(fn, params, carlike=()):
+    """Locals of fn that may hold (a reference into / a wrapper of) one of the parameters `params` reached *without*
+    stepping into a car: what the function could pass on along the spine.  A projection or accessor that selects
+    the car (`.0` of the pair, `[0]` of the span pair, Cons::car, a car-like helper) ends the flow; any other
+    assignment, projection or call carries it."""
+    tainted = set(params)
+    changed = True
+    while changed:
+        changed = False
+        for b in fn.blocks:
+            if b.get("cleanup"):
+                continue
+            for st in b["stmts"]:
+                if st["k"] != "assign":
+                    continue
+                dst = st["place"]["l"]
+                if dst in tainted:
+                    continue
+                rv = st["rv"]
+                src = False
+                k = rv["k"]
+                ops = []
+                if k in ("use", "cast"):
+                    ops = [rv["op"]]
+                elif k == "agg":
+                    ops = rv["fields"]
+                elif k in ("ref", "rawptr", "discr"):
+                    pl = rv["pl"]
+                    src = pl["l"] in tainted and not _projects_car(pl["p"], fn) and k != "discr"
+                for op in ops:
+                    if op.get("c") in ("copy", "move") and op["pl"]["l"] in tainted and not _projects_car(op["pl"]["p"], fn):
+                        src = True
+                if src:
+                    tainted.add(dst)
+                    changed = True
+            t = b["term"]
+            if t["k"] == "call" and not t["dest"]["p"] and t["dest"]["l"] not in tainted:
+                names = F.callee_names(t)
+                if name_has(names, CAR_KILLS) or (t["callee"].get("resolved") or t["callee"].get("path")) in carlike:
+                    continue
+                if any(common.place_local(a) in tainted for a in t["args"] if common.place_local(a) is not None):
+                    tainted.add(t["dest"]["l"])
+                    changed = True
+    return tainted
+
+
 PAIR_TYPES = ("(value::Value, value::Value)", "(lexpr::Value, lexpr::Value)")
 META_TYPES = ("[datum::SpanInfo; 2]", "[lexpr::datum::SpanInfo; 2]")
 
@@ -218,6 +264,9 @@ def _projects_car(ps, fn=None):
         if isinstance(e, dict) and e.get("ci") == 0 and not e.get("fe"):
             return True
         if isinstance(e, dict) and "i" in e and fn is not None and _const_index(fn, e["i"]) == 0:
+            return True
+        # the payload of a vector variant (Value::Vector / SpanInfo::Vec): elements, one nesting level down
+        if isinstance(e, dict) and "d" in e and e.get("n") in ("Vec", "Vector"):
             return True
         # `.0` of the (car, cdr) tuple - not the payload field `.0` of an enum variant such as Value::Cons(cell)
         if isinstance(e, dict) and e.get("f") == 0 and e.get("n") in ("0",) and "adt" not in e:
